@@ -3,10 +3,10 @@ CONSTANTS
   Mode = "fac"
   Depth = 2
   RootOps = {"fand_then"}
-  RK = {0, 1}
+  RK = {0}
   RR = {"ok", "err"}
   CK = {0}
-  CR = {"ok", "err"}
+  CR = {"ok"}
   FK = {0, 1}
   FR = {"ok", "err"}
   Kinds = {"cfg"}
